@@ -5,7 +5,12 @@ pub struct Rng(pub u64);
 
 impl Rng {
     pub fn new(seed: u64) -> Self {
-        Rng(seed.wrapping_mul(0x9E3779B97F4A7C15).wrapping_add(0x1234_5678_9ABC_DEF1))
+        // the seed goes through the output mix so that consecutive seeds give unrelated streams
+        // (a plain multiple of the increment would make seed s+1 the stream of seed s shifted by one)
+        let mut r = Rng(seed ^ 0x1234_5678_9ABC_DEF1);
+        let a = r.next();
+        let b = r.next();
+        Rng(a ^ b.rotate_left(17))
     }
     pub fn next(&mut self) -> u64 {
         self.0 = self.0.wrapping_add(0x9E3779B97F4A7C15);
